@@ -35,6 +35,7 @@ type bstate struct {
 	cum    int // failed responses since the last passive ejection
 	streak int // failed responses in a row
 	ejects []time.Time
+	maybe  []time.Time // possible (re-)ejections the statement allows but does not demand: they only delay the recovery check
 }
 
 type world struct {
@@ -52,6 +53,13 @@ type world struct {
 	hist     []string
 	beh        map[string]lab.Behaviour
 	recoveries int
+	holds      []heldReq
+	nLateResp  int // responses of long-running requests that arrived after their backend's state had changed
+}
+
+type heldReq struct {
+	host string
+	ch   chan int
 }
 
 func (w *world) inWindow(host string, now time.Time) bool {
@@ -69,7 +77,7 @@ func (w *world) lastEnd(host string) (time.Time, bool) {
 		return time.Time{}, false
 	}
 	end := es[0].Add(w.W)
-	for _, e := range es {
+	for _, e := range append(append([]time.Time{}, es...), w.b[host].maybe...) {
 		if e.Add(w.W).After(end) {
 			end = e.Add(w.W)
 		}
@@ -194,8 +202,8 @@ func indexOfHost(h string, n int) int {
 	return -1
 }
 
-// observe applies R1/R2/R4 to one dispatched request that was served by host with the given status.
-func (w *world) observe(host string, at time.Time, status int) string {
+// dispatched applies R4 to a request that was just dispatched to host.
+func (w *world) dispatched(host string, at time.Time) string {
 	st := w.b[host]
 	if w.inWindow(host, at) {
 		var e time.Time
@@ -206,6 +214,15 @@ func (w *world) observe(host string, at time.Time, status int) string {
 		}
 		return fmt.Sprintf("R4: request served by %s only %v after it was ejected; the unhealthy window is %v", w.nameOf(host), at.Sub(e), w.W)
 	}
+	return ""
+}
+
+// outcome applies R1/R2 to a response that host produced at time at. healthyBefore says whether the
+// backend was reported healthy just before the response arrived (always true for a request that
+// was dispatched and answered in the same instant; a response to a long-running request may arrive
+// when the backend has already been ejected by others).
+func (w *world) outcome(host string, at time.Time, status int, healthyBefore bool) string {
+	st := w.b[host]
 	failed := status >= 500
 	if failed {
 		st.cum++
@@ -222,7 +239,7 @@ func (w *world) observe(host string, at time.Time, status int) string {
 	}
 	switch {
 	case !failed:
-		if !r.list {
+		if healthyBefore && !r.list {
 			return fmt.Sprintf("R1: %s ejected right after a successful (%d) response", w.nameOf(host), status)
 		}
 	case st.streak >= w.c.Threshold:
@@ -235,17 +252,30 @@ func (w *world) observe(host string, at time.Time, status int) string {
 		}
 	case st.cum >= w.c.Threshold:
 		// may be ejected (threshold reached cumulatively, not in a row): follow the implementation
-		if !r.list {
+		if healthyBefore && !r.list {
 			st.ejects = append(st.ejects, at)
 			st.cum, st.streak = 0, 0
 			w.nEject++
+		} else if !healthyBefore {
+			st.maybe = append(st.maybe, at) // cannot be observed: it was unhealthy already
 		}
 	default:
-		if !r.list {
+		if healthyBefore && !r.list {
 			return fmt.Sprintf("R1: %s ejected after only %d failed response(s) since its last passive ejection; threshold is %d", w.nameOf(host), st.cum, w.c.Threshold)
+		}
+		if !healthyBefore {
+			st.maybe = append(st.maybe, at)
 		}
 	}
 	return ""
+}
+
+// observe = dispatched + outcome for a request answered in the instant it was dispatched.
+func (w *world) observe(host string, at time.Time, status int) string {
+	if v := w.dispatched(host, at); v != "" {
+		return v
+	}
+	return w.outcome(host, at, status, true)
 }
 
 func (w *world) nameOf(host string) string { return lab.BackendName(indexOfHost(host, w.c.N)) }
@@ -290,7 +320,7 @@ func genCfg(rt *rapid.T) hcfg {
 
 func TestC04HealthStateMachine(t *testing.T) {
 	sub := lab.Sub("health-state-machine", "rapid histories over per-backend events {set proxied behaviour good/5xx/unreachable, set probe ok/fail/held, request, advance (< window, > window, around probe interval), release held probe ok/fail, recovery burst} "+
-		"against the real balancer in virtual time: 5 strategies x threshold 1-4 x window 1-5 s x passive on/off x active on/off (interval 2-5 s, Helios's own ticker) x 1-3 backends; monitor R1 only-after-threshold, R2 must-eject-after-threshold-in-a-row, R3 failed probe ejects / nothing else does, "+
+		"plus long-running requests whose (good/5xx) response arrives later, and backends sending a 103 interim response before the final status; against the real balancer in virtual time: 5 strategies x threshold 1-4 x window 1-5 s x passive on/off x active on/off (interval 2-5 s, Helios's own ticker) x 1-3 backends; monitor R1 only-after-threshold, R2 must-eject-after-threshold-in-a-row, R3 failed probe ejects / nothing else does, "+
 		"R4 no traffic inside the window (incl. late probe results), R5 traffic returns after the window under every strategy, R6 ejected never reported healthy by ListBackends, /health, /metrics; "+
 		"non-trivial = at least one ejection and a request issued after its window had elapsed")
 	sub.NontrivialFloor(0.25)
@@ -331,7 +361,7 @@ func TestC04HealthStateMachine(t *testing.T) {
 					synctest.Wait()
 				}()
 				synctest.Wait()
-				behaviours := []lab.Behaviour{lab.Good, lab.Status5xx, lab.Status5xx, lab.Unreachable, lab.Status4xx}
+				behaviours := []lab.Behaviour{lab.Good, lab.Status5xx, lab.Status5xx, lab.Unreachable, lab.Status4xx, lab.Interim5xx, lab.InterimGood}
 				for i := 0; i < c.N; i++ {
 					b := rapid.SampledFrom(behaviours).Draw(rt, "initial")
 					w.set(i, b)
@@ -351,6 +381,10 @@ func TestC04HealthStateMachine(t *testing.T) {
 					}
 					due := len(w.recoveryDue(now)) > 0
 					wReq, wSet, wProbe, wAdv, wRel, wRec := 36, 12, 0, 18, 0, 0
+					wHold, wRelReq := 8, 0
+					if len(w.holds) > 0 {
+						wRelReq = 12
+					}
 					if c.Active {
 						wProbe = 10
 					}
@@ -363,8 +397,56 @@ func TestC04HealthStateMachine(t *testing.T) {
 					if due {
 						wRec = 30
 					}
-					k := rapid.IntRange(0, wReq+wSet+wProbe+wAdv+wRel+wRec-1).Draw(rt, "op")
+					k := rapid.IntRange(0, wReq+wSet+wProbe+wAdv+wRel+wRec+wHold+wRelReq-1).Draw(rt, "op")
 					switch {
+					case k >= wReq+wSet+wProbe+wAdv+wRel+wRec+wHold: // response of a long-running request arrives now
+						j := rapid.IntRange(0, len(w.holds)-1).Draw(rt, "relreq")
+						for f := range w.holds {
+							if w.holds[f].host == w.holds[j].host {
+								j = f
+								break
+							}
+						}
+						h := w.holds[j]
+						w.holds = append(w.holds[:j:j], w.holds[j+1:]...)
+						as := rapid.SampledFrom([]lab.Behaviour{lab.Good, lab.Status5xx, lab.Status5xx}).Draw(rt, "as")
+						w.settle()
+						idx := indexOfHost(h.host, c.N)
+						before, _ := w.reported(idx)
+						if !before.list || w.inWindow(h.host, time.Now()) {
+							w.nLateResp++
+						}
+						fn.Release(h.host, as)
+						synctest.Wait()
+						st := <-h.ch
+						w.hist = append(w.hist, fmt.Sprintf("response(b%d,%v)->%d", idx, as, st))
+						viol = w.outcome(h.host, time.Now(), st, before.list)
+					case k >= wReq+wSet+wProbe+wAdv+wRel+wRec: // long-running request: parked in whichever backend is picked
+						w.settle()
+						now := time.Now()
+						before := fn.Arrivals()
+						for i := 0; i < c.N; i++ {
+							fn.Set(lab.BackendHost(i), lab.Park)
+						}
+						ch := make(chan int, 1)
+						cl := rapid.IntRange(0, 30).Draw(rt, "client")
+						go func() {
+							st, _, _, _ := lab.Serve(w.lb, lab.Request("GET", "/long", clientAddr(cl), nil))
+							ch <- st
+						}()
+						synctest.Wait()
+						for i := 0; i < c.N; i++ {
+							fn.Set(lab.BackendHost(i), w.beh[lab.BackendHost(i)])
+						}
+						if fn.Arrivals() == before {
+							<-ch
+							w.hist = append(w.hist, "long->not-dispatched")
+							break
+						}
+						host := fn.HostAt(before)
+						w.holds = append(w.holds, heldReq{host, ch})
+						w.hist = append(w.hist, fmt.Sprintf("long->b%d", indexOfHost(host, c.N)))
+						viol = w.dispatched(host, now)
 					case k < wReq:
 						cl := rapid.IntRange(0, 30).Draw(rt, "client")
 						w.hist = append(w.hist, fmt.Sprintf("req(c%d)", cl))
@@ -442,6 +524,9 @@ func TestC04HealthStateMachine(t *testing.T) {
 		if w.recoveries > 0 {
 			labels = append(labels, "recovery-burst")
 		}
+		if w.nLateResp > 0 {
+			labels = append(labels, "late-response-of-long-request")
+		}
 		sub.Case(map[string]any{"cfg": c, "history": w.hist}, w.nEject > 0 && w.nAfter > 0, labels...)
 		if viol != "" {
 			rt.Fatalf("cfg %+v history %v: %s", c, w.hist, viol)
@@ -481,6 +566,9 @@ func (w *world) recovery(rt *rapid.T) string {
 	due := w.recoveryDue(time.Now())
 	if len(due) == 0 {
 		return ""
+	}
+	if w.c.Strategy == "least_connections" && len(w.holds) > 0 {
+		return "" // the staged burst below parks and releases its own requests per host; long-running requests would mix in
 	}
 	i := due[rapid.IntRange(0, len(due)-1).Draw(rt, "recover")]
 	target := lab.BackendHost(i)
